@@ -25,7 +25,7 @@ TRUSTED = ["Lean 4 kernel", "axioms: propext, Quot.sound, Classical.choice (at m
 ASSUMPTIONS = ["the file is only appended to while it is followed"]
 RULE = ("seeded scripts: 0..150 appended lines written in chunks that split lines and multi-byte characters, bursts, pauses around polls, "
         "MaxLineLength splits, with and without a filter regex, ample (100) and tiny (1) delivery queues with a stalled consumer (drops); "
-        "non-trivial = drops / chunked / partial-held / filter / split tag")
+        "non-trivial = drops / chunked / partial-held / filter / split tag; carriage returns: CRLF lines, a CR split from its LF by a write boundary and a poll")
 
 
 def script(rng, tiny):
